@@ -20,10 +20,27 @@ def setup_cpp():
   return so
 
 
-def canon_rules(parsed):
-  """main-file rules as a list, rules of imported files as a set (the property's wording); heritage as text"""
+def main_statements(text):
+  p = impl.M('parser_py.parse')
+  try:
+    s = p.HeritageAwareString(p.RemoveComments(p.HeritageAwareString(text)))
+    return {str(x).strip() for x in p.Split(s, ';')} | {str(x).strip().replace('-->', ' = ') for x in p.Split(s, ';')}
+  except Exception:
+    return set()
+
+
+def canon_rules(parsed, main_text=None):
+  """main-file rules as a list (same order), rules of imported files as a set (the property's wording); heritage as text.
+  A rule belongs to the main file when its full_text is a statement of the main text."""
   rules = parsed['rule']
-  return json.dumps(rules, sort_keys=True, default=str)
+  if main_text is None or 'import ' not in main_text:
+    return json.dumps(rules, sort_keys=True, default=str)
+  stm = main_statements(main_text)
+  main, other = [], []
+  for r in rules:
+    j = json.dumps(r, sort_keys=True, default=str)
+    (main if str(r.get('full_text', '')).strip() in stm else other).append(j)
+  return json.dumps([main, sorted(other)])
 
 
 def canon_rules_split(parsed, main_preds_hint=None):
@@ -36,7 +53,7 @@ def parse_with(mode, text, import_root=None):
   os.environ['LOGICA_PARSER'] = mode
   try:
     r = impl.quiet(p.ParseFile, text, import_root=import_root)
-    return ('ok', canon_rules(r), r)
+    return ('ok', canon_rules(r, text), r)
   except p.ParsingException as e:
     return ('reject', str(e)[:200])
   except RecursionError as e:
